@@ -44,8 +44,8 @@ example :
     let dirs : List DirEnt := [⟨⟨0, relDir L p [49]⟩, p⟩]
     let w := step (World.init 2 dirs)
       (.run 0 (.declare ⟨L, p, [49], some ⟨0, relDir L p [49]⟩, none, false, none, false, false⟩) none)
-    let dry := step w (.run 0 (.remove L p [49] false true) none)
-    let real := step w (.run 0 (.remove L p [49] false false) none)
+    let dry := step w (.run 0 (.remove L p [49] false true false none) none)
+    let real := step w (.run 0 (.remove L p [49] false false false none) none)
     (dry.db.decls.length, dry.dirs.length, real.db.decls.length, real.dirs.length) = (1, 1, 0, 0) := by
   decide
 
